@@ -50,6 +50,9 @@ impl DespawnAccessTracker
         self.reactor_handle = Some(handle);
     }
 
+    #[cfg(feature = "verif_hooks")]
+    pub(crate) fn verif_state(&self) -> (bool, usize, bool) { (self.currently_reacting, self.prepared.len(), self.reactor_handle.is_some()) }
+
     /// Unsets the 'is reacting' flag and drops the auto despawn signal.
     pub(crate) fn end(&mut self)
     {
